@@ -1,4 +1,4 @@
-import MsqProofs.Lemmas.LineageLevel
+import MsqProofs.Lemmas.LineageSet
 /-!
 # Lineage: nesting — derived tables and WITH tables at any depth, by induction on the depth budget
 -/
@@ -487,166 +487,151 @@ theorem pw_step (cat : Cat) (f : Nat) (hq : PQ cat f) (hwi : PW cat f) : PW cat 
               simp [this]
       · simp [hnd, Out]
 
+/-- the scope of a level is refused only as "outside" (an unknown base table, a derived table without alias) -/
+theorem scopeOf_err (cat : Cat) (wenv rels : Scope) : ∀ (l : List FromTable) (e : FErr), scopeOf cat wenv rels l = .error e → e = .outside
+  | [], e, h => by simp [scopeOf] at h
+  | .mk (.table s n) al :: r, e, h => by
+    simp only [scopeOf, bind, Except.bind] at h
+    cases ha : dictGet? wenv n with
+    | some Rn =>
+      simp only [ha] at h
+      cases hb : scopeOf cat wenv rels r with
+      | error e' => simp [hb] at h; rw [← h]; exact scopeOf_err cat wenv rels r e' hb
+      | ok v => simp [hb, pure, Except.pure] at h
+    | none =>
+      simp only [ha] at h
+      cases hcl : catLookup cat (s, n) with
+      | none => simp [hcl] at h; exact h.symm
+      | some c =>
+        simp only [hcl] at h
+        cases hb : scopeOf cat wenv rels r with
+        | error e' => simp [hb] at h; rw [← h]; exact scopeOf_err cat wenv rels r e' hb
+        | ok v => simp [hb, pure, Except.pure] at h
+  | .mk (.sub q) none :: r, e, h => by simp [scopeOf] at h; exact h.symm
+  | .mk (.sub q) (some a) :: r, e, h => by
+    simp only [scopeOf, bind, Except.bind] at h
+    cases ha : dictGet? rels a with
+    | none => simp [ha] at h; exact h.symm
+    | some Ra =>
+      simp only [ha] at h
+      cases hb : scopeOf cat wenv rels r with
+      | error e' => simp [hb] at h; rw [← h]; exact scopeOf_err cat wenv rels r e' hb
+      | ok v => simp [hb, pure, Except.pure] at h
+
 theorem pq_step (cat : Cat) (f : Nat) (hwi : PW cat f) (hsi : PS cat f) : PQ cat (f + 1) := by
   intro q wenv wn st hk hn hw hr hc hcb he
-  cases q with
-  | union ws s us => simp [flowQ, Out]
-  | single s =>
-    cases s with
-    | mk ws dist cols fr lats js wh gb hv ob sb db cb lm =>
-      cases ws with
-      | none => simp [flowQ, Out]
-      | some ws =>
-        cases lats with
-        | cons l ls => simp [flowQ, Out]
-        | nil =>
-          simp only [flowQ, bind, Except.bind]
-          simp only [bound, reads, Query.withs, Option.getD_some] at hn hw hr hc hcb ⊢
-          generalize hfts : levelFromTables (.single (.mk (some ws) dist cols fr [] js wh gb hv ob sb db cb lm)) = fts at hn hw hr hc hcb ⊢
-          have hnw : (boundWiths f ws).Nodup := nodup_append_left hn
-          have hns : (boundSubs f (derivedOf fts)).Nodup := nodup_append_right hn
-          have hdis := nodup_append_disj hn
-          -- WITH tables
-          have o1 := hwi ws wenv wn st hk hnw
-            (fun m hm hb => hw m hm (by simp [hb]))
-            (fun m hm hb => hr m (by simp [hm]) (by simp [hb]))
-            (fun m hm => hc m (by simp [hm]))
-            (fun m hm => hcb m (by simp [hm]))
-            he
-          cases h1 : flowWiths cat f wenv ws with
+  simp only [flowQ]
+  cases hsh : shape q with
+  | none => simp [Out]
+  | some ws =>
+    simp only [flowPrefix, bind, Except.bind]
+    have hwq := shape_withs hsh
+    simp only [bound, reads, hwq, Option.getD_some] at hn hw hr hc hcb ⊢
+    generalize hfts : levelFromTables q = fts at hn hw hr hc hcb ⊢
+    have hnw : (boundWiths f ws).Nodup := nodup_append_left hn
+    have hns : (boundSubs f (derivedOf fts)).Nodup := nodup_append_right hn
+    have hdis := nodup_append_disj hn
+    -- WITH tables
+    have o1 := hwi ws wenv wn st hk hnw
+      (fun m hm hb => hw m hm (by simp [hb]))
+      (fun m hm hb => hr m (by simp [hm]) (by simp [hb]))
+      (fun m hm => hc m (by simp [hm]))
+      (fun m hm => hcb m (by simp [hm]))
+      he
+    cases h1 : flowWiths cat f wenv ws with
+    | error e =>
+      rw [h1] at o1
+      cases e with
+      | analysis => simp only [Out] at o1 ⊢; simp [selectLineage, hwq, o1, bind, Except.bind]
+      | outside => simp [Out]
+    | ok wenv1 =>
+      rw [h1] at o1
+      obtain ⟨st1, e1, fr1, he1, hk1, hin1⟩ := o1
+      simp only
+      by_cases hlev : levelOK fts = true
+      · simp only [hlev, Bool.not_true, Bool.false_eq_true, if_false]
+        -- derived tables, from the state in which the WITH tables are registered
+        have hw1 : ∀ m ∈ wn ++ withNames ws, m ∉ boundSubs f (derivedOf fts) := by
+          intro m hm hb
+          rcases List.mem_append.mp hm with h | h
+          · exact hw m h (by simp [hb])
+          · exact hdis m (hin1 m h) hb
+        have hc1 : Clean st1 (readsSubs f (wn ++ withNames ws) (derivedOf fts)) :=
+          Clean.frame (fun m hm => hc m (by simp [hm])) fr1 (fun m hm hb => hr m (by simp [hm]) (by simp [hb]))
+        have hcb1 : Clean st1 (boundSubs f (derivedOf fts)) :=
+          Clean.frame (fun m hm => hcb m (by simp [hm])) fr1 (fun m hm hb => hdis m hb hm)
+        have o2 := hsi (derivedOf fts) wenv1 (wn ++ withNames ws) st1 hk1 hns hw1
+          (fun m hm hb => hr m (by simp [hm]) (by simp [hb]))
+          hc1 hcb1 he1
+        cases h2 : flowSubs cat f wenv1 (derivedOf fts) with
+        | error e =>
+          rw [h2] at o2
+          cases e with
+          | analysis =>
+            simp only [Out] at o2 ⊢
+            simp [selectLineage, hwq, hfts, e1, subQueries_eq hlev, o2, bind, Except.bind]
+          | outside => simp [Out]
+        | ok rels =>
+          rw [h2] at o2
+          obtain ⟨st2, e2, fr2, hrel2, hin2⟩ := o2
+          simp only
+          cases h3 : scopeOf cat wenv1 rels fts with
           | error e =>
-            rw [h1] at o1
-            cases e with
-            | analysis => simp only [Out] at o1 ⊢; simp [selectLineage, Query.withs, o1, bind, Except.bind]
-            | outside => simp [Out]
-          | ok wenv1 =>
-            rw [h1] at o1
-            obtain ⟨st1, e1, fr1, he1, hk1, hin1⟩ := o1
+            have := scopeOf_err cat wenv1 rels fts e h3
+            subst this
+            simp [Out]
+          | ok scope =>
             simp only
-            by_cases hlev : levelOK fts = true
-            · simp only [hlev, Bool.not_true, Bool.false_eq_true, if_false]
-              -- derived tables, from the state in which the WITH tables are registered
-              have hw1 : ∀ m ∈ wn ++ withNames ws, m ∉ boundSubs f (derivedOf fts) := by
-                intro m hm hb
-                rcases List.mem_append.mp hm with h | h
-                · exact hw m h (by simp [hb])
-                · exact hdis m (hin1 m h) hb
-              have hc1 : Clean st1 (readsSubs f (wn ++ withNames ws) (derivedOf fts)) :=
-                Clean.frame (fun m hm => hc m (by simp [hm])) fr1 (fun m hm hb => hr m (by simp [hm]) (by simp [hb]))
-              have hcb1 : Clean st1 (boundSubs f (derivedOf fts)) :=
-                Clean.frame (fun m hm => hcb m (by simp [hm])) fr1 (fun m hm hb => hdis m hb hm)
-              have o2 := hsi (derivedOf fts) wenv1 (wn ++ withNames ws) st1 hk1 hns hw1
-                (fun m hm hb => hr m (by simp [hm]) (by simp [hb]))
-                hc1 hcb1 he1
-              cases h2 : flowSubs cat f wenv1 (derivedOf fts) with
-              | error e =>
-                rw [h2] at o2
-                cases e with
-                | analysis =>
-                  simp only [Out] at o2 ⊢
-                  simp [selectLineage, Query.withs, hfts, e1, subQueries_eq hlev, o2, bind, Except.bind]
-                | outside => simp [Out]
-              | ok rels =>
-                rw [h2] at o2
-                obtain ⟨st2, e2, fr2, hrel2, hin2⟩ := o2
+            -- the level
+            have he2 : WEnv st2 wenv1 := WEnv.frame he1 fr2 (fun m hsome => hw1 m ((hk1 m).mpr hsome))
+            have hres : Resolves cat st2 (tnOf fts) scope := by
+              refine resolves_level cat st2 wenv1 rels he2 ?_ fts scope ?_ h3
+              · intro a Ra ha
+                exact hrel2 a Ra (dictGet_mem rels a Ra ha)
+              · intro m hm hnone
+                have hmw : m ∉ wn ++ withNames ws := by
+                  intro hmem
+                  have := (hk1 m).mp hmem
+                  simp [hnone] at this
+                have hmr : m ∈ readsWiths f wn ws ++ (List.filter (fun n => !(wn ++ withNames ws).contains n) (baseOf fts)
+                    ++ readsSubs f (wn ++ withNames ws) (derivedOf fts)) := by
+                  simp only [List.mem_append, List.mem_filter]
+                  right; left
+                  exact ⟨hm, by simpa using hmw⟩
+                have hmb := hr m (by simpa [List.append_assoc] using hmr)
+                have hcm := hc m (by simpa [List.append_assoc] using hmr)
+                have f1 := fr1 m (fun hb => hmb (by simp [hb]))
+                have f2 := fr2 m (fun hb => hmb (by simp [hb]))
+                exact ⟨by rw [f2.1, f1.1]; exact hcm.1, by rw [f2.2, f1.2]; exact hcm.2⟩
+            have hlvl := level_generic hres q st2 (Same.refl st2)
+            have hmodel : selectLineage cat (f + 1) q st =
+                (match (do let (cur, st3) ← currentLevel cat (tnOf fts) q st2; sourcesLoop cat (tnOf fts) [] cur st3) with
+                 | .error err => .error err
+                 | .ok v => .ok (mkLineage v.1 Lineage.empty, v.2)) := by
+              simp only [selectLineage, hwq, hfts, e1, subQueries_eq hlev, e2, tableNames_eq hlev, shape_lateral hsh,
+                dictOfPairs, List.foldl_nil, bind, Except.bind, pure, Except.pure]
+              cases currentLevel cat (tnOf fts) q st2 with
+              | error err => rfl
+              | ok v =>
                 simp only
-                cases h3 : scopeOf cat wenv1 rels fts with
-                | error e =>
-                  -- the scope is refused only as "outside" (an unknown base table, a derived table without alias)
-                  have : e = FErr.outside := by
-                    revert h3
-                    generalize fts = l
-                    intro h3
-                    induction l generalizing e with
-                    | nil => simp [scopeOf] at h3
-                    | cons ft r ih =>
-                      cases ft with
-                      | mk tr al =>
-                        cases tr with
-                        | table s n =>
-                          simp only [scopeOf, bind, Except.bind] at h3
-                          cases ha : dictGet? wenv1 n with
-                          | some Rn =>
-                            simp only [ha] at h3
-                            cases hb : scopeOf cat wenv1 rels r with
-                            | error e' => simp [hb] at h3; rw [← h3]; exact ih e' hb
-                            | ok v => simp [hb, pure, Except.pure] at h3
-                          | none =>
-                            simp only [ha] at h3
-                            cases hcl : catLookup cat (s, n) with
-                            | none => simp [hcl] at h3; exact h3.symm
-                            | some c =>
-                              simp only [hcl] at h3
-                              cases hb : scopeOf cat wenv1 rels r with
-                              | error e' => simp [hb] at h3; rw [← h3]; exact ih e' hb
-                              | ok v => simp [hb, pure, Except.pure] at h3
-                        | sub q =>
-                          cases al with
-                          | none => simp [scopeOf] at h3; exact h3.symm
-                          | some a =>
-                            simp only [scopeOf, bind, Except.bind] at h3
-                            cases ha : dictGet? rels a with
-                            | none => simp [ha] at h3; exact h3.symm
-                            | some Ra =>
-                              simp only [ha] at h3
-                              cases hb : scopeOf cat wenv1 rels r with
-                              | error e' => simp [hb] at h3; rw [← h3]; exact ih e' hb
-                              | ok v => simp [hb, pure, Except.pure] at h3
-                  subst this
-                  simp [Out]
-                | ok scope =>
-                  simp only
-                  -- the level
-                  have he2 : WEnv st2 wenv1 := WEnv.frame he1 fr2 (fun m hsome => hw1 m ((hk1 m).mpr hsome))
-                  have hres : Resolves cat st2 (tnOf fts) scope := by
-                    refine resolves_level cat st2 wenv1 rels he2 ?_ fts scope ?_ h3
-                    · intro a Ra ha
-                      exact hrel2 a Ra (dictGet_mem rels a Ra ha)
-                    · intro m hm hnone
-                      have hmw : m ∉ wn ++ withNames ws := by
-                        intro hmem
-                        have := (hk1 m).mp hmem
-                        simp [hnone] at this
-                      have hmr : m ∈ readsWiths f wn ws ++ (List.filter (fun n => !(wn ++ withNames ws).contains n) (baseOf fts)
-                          ++ readsSubs f (wn ++ withNames ws) (derivedOf fts)) := by
-                        simp only [List.mem_append, List.mem_filter]
-                        right; left
-                        exact ⟨hm, by simpa using hmw⟩
-                      have hmb := hr m (by simpa [List.append_assoc] using hmr)
-                      have hcm := hc m (by simpa [List.append_assoc] using hmr)
-                      have f1 := fr1 m (fun hb => hmb (by simp [hb]))
-                      have f2 := fr2 m (fun hb => hmb (by simp [hb]))
-                      exact ⟨by rw [f2.1, f1.1]; exact hcm.1, by rw [f2.2, f1.2]; exact hcm.2⟩
-                  have hlvl := level_spec hres cols st2 (Same.refl st2)
-                  have hmodel : selectLineage cat (f + 1) (.single (.mk (some ws) dist cols fr [] js wh gb hv ob sb db cb lm)) st =
-                      (match (do let (cur, st3) ← currentLevelSingle cat (tnOf fts) cols 1 st2; sourcesLoop cat (tnOf fts) [] cur st3) with
-                       | .error err => .error err
-                       | .ok v => .ok (mkLineage v.1 Lineage.empty, v.2)) := by
-                    simp only [selectLineage, Query.withs, hfts, e1, subQueries_eq hlev, e2, tableNames_eq hlev, lateralColumns,
-                      lateralSingle, Select.laterals, List.foldlM_nil, dictOfPairs, List.foldl_nil, currentLevel, Select.cols,
-                      bind, Except.bind, pure, Except.pure]
-                    cases currentLevelSingle cat (tnOf fts) cols 1 st2 with
-                    | error err => rfl
-                    | ok v =>
-                      simp only
-                      cases sourcesLoop cat (tnOf fts) [] v.1 v.2 <;> rfl
-                  rw [hmodel]
-                  cases hitems : items scope cols with
-                  | error e =>
-                    rw [hitems] at hlvl
-                    cases e with
-                    | analysis =>
-                      simp only [Except.map, Agrees] at hlvl
-                      simp [Out, hlvl]
-                    | outside => simp [Out]
-                  | ok R =>
-                    rw [hitems] at hlvl
-                    simp only [Except.map, Agrees] at hlvl
-                    obtain ⟨st3, e3, s3⟩ := hlvl
-                    refine ⟨(mkLineage (C16.number R 1) Lineage.empty, st3), by rw [e3], rfl, ?_⟩
-                    exact ((fr1.mono (fun k hk' => by simp [hk'])).trans (fr2.mono (fun k hk' => by simp [hk']))).trans
-                      (Frame.of_same s3)
-            · simp [hlev, Out]
+                cases sourcesLoop cat (tnOf fts) [] v.1 v.2 <;> rfl
+            rw [hmodel]
+            cases hitems : levelFlow q scope with
+            | error e =>
+              rw [hitems] at hlvl
+              cases e with
+              | analysis =>
+                simp only [Except.map, Agrees] at hlvl
+                simp [Out, hlvl]
+              | outside => simp [Out]
+            | ok R =>
+              rw [hitems] at hlvl
+              simp only [Except.map, Agrees] at hlvl
+              obtain ⟨st3, e3, s3⟩ := hlvl
+              refine ⟨(mkLineage (C16.number R 1) Lineage.empty, st3), by rw [e3], rfl, ?_⟩
+              exact ((fr1.mono (fun k hk' => by simp [hk'])).trans (fr2.mono (fun k hk' => by simp [hk']))).trans
+                (Frame.of_same s3)
+      · simp [hlev, Out]
 
 /-- **derived tables and WITH tables at any depth** -/
 theorem nest (cat : Cat) : ∀ f : Nat, PQ cat f ∧ PW cat f ∧ PS cat f
